@@ -71,7 +71,13 @@ var cur atomic.Pointer[Sched]
 var (
 	poisoned     atomic.Bool
 	poisonDriver atomic.Uint64
+	freeHooks    atomic.Int64
+	// SpunInWindDown: the wind-down of the current run was poisoned because hooks kept coming at a rate
+	// only a busy loop produces.
+	SpunInWindDown atomic.Bool
 )
+
+const freeHookLimit = 100000
 
 // Poison makes every hook terminate its goroutine (runtime.Goexit). Cleared by the next Install.
 func Poison() {
@@ -92,6 +98,8 @@ func poisonCheck() {
 // Install makes s the active scheduler. The calling goroutine becomes the driver.
 func Install(p Policy) *Sched {
 	poisoned.Store(false)
+	freeHooks.Store(0)
+	SpunInWindDown.Store(false)
 	s := &Sched{
 		byGoid:  map[uint64]*G{},
 		parked:  map[string]*G{},
@@ -286,7 +294,18 @@ func Observe() {
 func Yield(site string) {
 	poisonCheck()
 	s := cur.Load()
-	if s == nil || s.free.Load() {
+	if s == nil {
+		return
+	}
+	if s.free.Load() {
+		// wind-down: the scheduler no longer decides who runs. A goroutine of the code under test that
+		// spins here (never blocks) would keep the bubble's clock from advancing and hang the worker for
+		// good; after an absurd number of hooks the run is poisoned instead (see Poison).
+		if freeHooks.Add(1) > freeHookLimit && !poisoned.Load() {
+			SpunInWindDown.Store(true)
+			Poison()
+		}
+
 		return
 	}
 	me := goid()
